@@ -581,12 +581,16 @@ def collision_twins(rng, defn, pt):
     -0.0): distinct inputs that CPython hashes alike (hash(-1.0) == hash(-2.0)), the classic way a memo
     keyed on hash(args) returns the previous call's intermediate values."""
     names = list(defn["state"]) + list(defn["control"])
-    k = rng.randint(1, max(1, min(3, len(names))))
-    chosen = rng.sample(names, k)
-    pa, pb = dict(pt), dict(pt)
-    for n in chosen:
-        pa[n], pb[n] = -1.0, -2.0
-    return pa, pb
+    for _ in range(12):
+        k = rng.randint(1, max(1, min(3, len(names))))
+        chosen = rng.sample(names, k)
+        pa, pb = dict(pt), dict(pt)
+        for n in chosen:
+            pa[n], pb[n] = -1.0, -2.0
+        # stay out of the exp-overflow region like every other non-probe point
+        if all(max_exp_argument(defn, dict(q, **defn["calibration_map"])) <= EXP_ARG_LIMIT for q in (pa, pb)):
+            return pa, pb
+    return dict(pt), dict(pt)
 
 
 def typed_cov(rng, P, p=0.25):
